@@ -264,6 +264,7 @@ fn weird_coef(rng: &mut Rng) -> f64 {
 
 pub fn run_case(ctx: &Ctx, case: u64, ev: &mut Ev) {
     let mut rng = Rng::derive(ctx.seed, "C19", case);
+    rng.big = ctx.tier == crate::Tier::Thorough && rng.chance(0.2);
     if rng.chance(0.7) {
         run_matrix(case, &mut rng, ev);
     } else {
@@ -272,9 +273,9 @@ pub fn run_case(ctx: &Ctx, case: u64, ev: &mut Ev) {
 }
 
 fn run_matrix(case: u64, rng: &mut Rng, ev: &mut Ev) {
-    let m = 1 + rng.below(8);
+    let m = 1 + rng.below(if rng.big { 14 } else { 8 });
     let wide = rng.chance(0.3);
-    let n = 1 + rng.below(if wide { 30 } else { 8 });
+    let n = 1 + rng.below(if rng.big { 60 } else if wide { 30 } else { 8 });
     let mut a = Aff {
         mat: (0..m).map(|_| (0..n).map(|_| weird_coef(rng)).collect()).collect(),
         bias: (0..m).map(|_| weird_coef(rng)).collect(),
